@@ -18,6 +18,8 @@ pub struct TwinSys {
     pub a: Tracked<f64>,
     pub b: Tracked<f32>,
     pub k: f64,
+    /// peak of the signal (the tolerance is relative to it)
+    pub peak: f64,
 }
 
 /// Tolerance factor K: |y32 - y64| <= K * 2^-23 * peak.
@@ -39,6 +41,17 @@ impl TwinSys {
             a: Tracked::<f64>::new(cfg, Signal::Noise, props)?,
             b: Tracked::<f32>::new(cfg, Signal::Noise, props)?,
             k: k_for(cfg),
+            peak: 1.0,
+        })
+    }
+    /// The same pair on the very quiet signal (peak 2^-26).
+    pub fn quiet(cfg: &Cfg) -> Result<TwinSys, String> {
+        let props = Props::only("C17");
+        Ok(TwinSys {
+            a: Tracked::<f64>::new(cfg, Signal::NoiseQuiet, props)?,
+            b: Tracked::<f32>::new(cfg, Signal::NoiseQuiet, props)?,
+            k: k_for(cfg),
+            peak: (2.0f64).powi(-26),
         })
     }
 }
@@ -83,7 +96,7 @@ impl Sys for TwinSys {
             }
             if let (Res::Ok(_, o1), Res::Ok(_, o2)) = (&oa.res, &ob.res) {
                 if o1 == o2 {
-                    let tol = self.k * 2f64.powi(-23);
+                    let tol = self.k * 2f64.powi(-23) * self.peak;
                     let mut worst = 0.0f64;
                     let mut at = (0usize, 0usize);
                     for (c, (x, y)) in oa.out.iter().zip(ob.out.iter()).enumerate() {
@@ -98,7 +111,7 @@ impl Sys for TwinSys {
                             }
                         }
                     }
-                    let units = worst / 2f64.powi(-23);
+                    let units = worst / (2f64.powi(-23) * self.peak);
                     WORST.with(|w| {
                         if units > w.get() {
                             w.set(units)
@@ -108,8 +121,8 @@ impl Sys for TwinSys {
                         push(
                             "output-differs",
                             format!(
-                                "{}: |y32-y64| = {:e} (= {:.1} * 2^-23) at channel {} frame {}, tolerance {} * 2^-23",
-                                op.text(), worst, units, at.0, at.1, self.k
+                                "{}: |y32-y64| = {:e} (= {:.1} * 2^-23 * peak {:e}) at channel {} frame {}, tolerance {} * 2^-23 * peak",
+                                op.text(), worst, units, self.peak, at.0, at.1, self.k
                             ),
                         );
                     }
